@@ -161,19 +161,19 @@ def replay(ctx, cases, prefixes):
 
 
 def run(ctx, prefixes, what, configs=None):
-    rcfgs = random_configs(ctx, ctx.pick(8, 60))
+    rcfgs = random_configs(ctx, ctx.pick(6, 60))
     mod, cfgs = gen_module(ctx, rcfgs)
     asis_env = bool(os.environ.get("VERIF_OP_ASIS"))
     quick = [("A", 2, 1, 1), ("B", 2, 0, 2)] if ctx.quick() else [("A", 2, 1, 2), ("B", 3, 0, 2), ("D", 2, 1, 1)]
     model_checks(ctx, mod, quick, [("A", "NoSyncForDisabled", "TRUE", "FALSE"), ("B", "NeverDiscardStrict", "FALSE", "TRUE")])
     cases = []
-    per = ctx.pick(30, 400)
+    per = ctx.pick(20, 400)
     for cfg in sorted(configs or [c for c in cfgs if c not in rcfgs]):
         for b in gen(ctx, mod, cfg, per, ctx.pick(45, 70), asis=asis_env):
             cases.append({"config": cfg, "hooks": cfgs[cfg], "steps": b})
     # configurations drawn from the grammar: fewer behaviours each, other ones for every seed
     for cfg in sorted(rcfgs):
-        for b in gen(ctx, mod, cfg, ctx.pick(8, 25), ctx.pick(45, 70), asis=asis_env):
+        for b in gen(ctx, mod, cfg, ctx.pick(6, 25), ctx.pick(45, 70), asis=asis_env):
             cases.append({"config": cfg, "hooks": cfgs[cfg], "steps": b})
     ctx.cov["random_configurations"] = len(rcfgs)
     stats = replay(ctx, cases, prefixes)
@@ -217,7 +217,7 @@ def oplog(ctx, pid):
     """(T) free-running executions of the real operator validated by TLC against spec/Operator/OperatorLog.tla."""
     binary = vlib.go_build(ctx, "op")
     hookbin = vlib.go_build(ctx, "hookbin")
-    runs = ctx.pick(40, 400)
+    runs = ctx.pick(30, 400)
     tr = ctx.path("oplog.ndjson")
     rr = vlib.run_bin(ctx, binary, ["stress", "-out", tr, "-hookbin", hookbin, "-n", str(runs), "-seed", str(ctx.seed)], timeout=1800)
     if rr["rc"] != 0:
@@ -326,11 +326,11 @@ def check_c07(ctx):
     ctx.cov["layouts"] = total
     ctx.cov["exhaustive"] = True
     # end to end
-    rcfgs = random_configs(ctx, ctx.pick(6, 40))
+    rcfgs = random_configs(ctx, ctx.pick(4, 40))
     mod, cfgs = gen_module(ctx, rcfgs)
     cases = []
     for cfg in ("A", "C", "G", "K", "M"):
-        for b in gen(ctx, mod, cfg, ctx.pick(25, 300), ctx.pick(45, 70)):
+        for b in gen(ctx, mod, cfg, ctx.pick(15, 300), ctx.pick(45, 70)):
             cases.append({"config": cfg, "hooks": cfgs[cfg], "steps": b})
     for cfg in sorted(rcfgs):
         for b in gen(ctx, mod, cfg, ctx.pick(8, 25), ctx.pick(45, 70)):
